@@ -21,6 +21,10 @@ func StringToNote(note string) (byte, error) {
 		return 0, fmt.Errorf("parsing octave failed: %w", err)
 	}
 
+	if _, ok := pitchToVal[pitch]; !ok {
+		return 0, fmt.Errorf("unknown note name: %s", match[1])
+	}
+
 	calculated := (uint8(octave)+2)*12 + pitchToVal[pitch]
 	if calculated < 0 || calculated > 127 {
 		return 0, fmt.Errorf("note outside of midi range 0-127: %d", calculated)
